@@ -13,8 +13,15 @@ def tabs_for(dataset, n=12, wide=False):
     return _tab_cache[key]
 
 
+class HarnessError(BaseException):
+    """Raised for defects of the checking harness itself; deliberately not an Exception subclass so that the
+    drivers' `except Exception` (refusals of the program under test) cannot swallow it."""
+
+
 def layout_of(spec):
     kind, s, known = spec
+    if kind == "cuts" and not (len(s) == 2 and all(isinstance(x, (tuple, list)) for x in s)):
+        raise HarnessError(f"malformed cuts layout {spec!r}: expected ((pieces of df), (pieces of df2))")
     return C.Layout(kind, s, known)
 
 
@@ -31,7 +38,11 @@ def build(case, lazy=True, knobs=None, wide=False):
     dataset, n, lspec, pname = case[:4]
     prog = C.PROGRAMS[pname]
     lay = layout_of(lspec)
-    ctx = C.build_context(tabs_for(dataset, n, wide), lay, lazy=lazy, knobs=knobs)
+    try:
+        ctx = C.build_context(tabs_for(dataset, n, wide), lay, lazy=lazy, knobs=knobs)
+    except Exception as ex:
+        # building the INPUTS is the harness's job: a failure here is a checker error, never a refusal of the program
+        raise HarnessError(f"cannot build inputs for layout {lspec!r}: {type(ex).__name__}: {ex}") from ex
     return prog, prog.fn(ctx)
 
 
